@@ -2,9 +2,10 @@
 
 Tie to the code (model: coq/theories/Results.v, theorems: coq/props/C16.v):
   stream `sim`     real SimulationContexts built from a generated *program*: 0-4 stratifications (default mapper,
-                   vectorised mapper, per-row mapper, register_binned_stratification; excluded categories from code and
+                   vectorised mapper, per-row mapper, register_binned_stratification, sources that are columns or a
+                   VALUE pipeline (requires_values / target_type="value"); excluded categories from code and
                    from configuration; malformed registrations), 1-5 observations (count / pandas-sum / DataFrame.sum
-                   adding observations, concatenating observations; filters, phases, to_observe predicates,
+                   adding observations, sum-of-squares and conditional-count aggregators, concatenating observations; filters, phases, to_observe predicates,
                    default/additional/excluded stratification lists, duplicates, unregistered names) and a script of
                    births, (un)tracking and attribute changes (incl. values no category covers).  A probe listener
                    just before (priority 4) and just after (priority 6) the results manager's listener snapshots the
@@ -56,16 +57,33 @@ CLAIM = {
             "results manager's listener) and letting Coq compare its prediction with get_results() after post_setup and "
             "at the end; a python oracle recomputes every table after every event.",
     "note": "Aggregates are integer-valued (len, pandas sums of integers); mapper/query/to_observe behaviour is input data; "
-            "sampled correspondence (not exhaustive); user-supplied formatters/aggregators other than len and sums, value "
-            "pipelines as stratification sources, and degenerate two-equal-edge bins are outside the model.",
+            "sampled correspondence (not exhaustive); aggregators are len, sums, sums of squares and conditional counts "
+            "(additive ones: a mean or a maximum is outside the property); stratification sources are columns and a value "
+            "pipeline; user-supplied formatters and degenerate two-equal-edge bins are outside the model.",
 }
 
 PHASES = ["time_step__prepare", "time_step", "time_step__cleanup", "collect_metrics"]
 FILTERS = ["tracked==True", "", "age >= 10", "tracked==True and sex == 'F'", "w1 > 2 or color == 'red'",
            "tracked==False", "age < 0"]
 FILTER_COLS = [[], [], ["age"], ["sex"], ["w1", "color"], [], ["age"]]
-NF, NW, NP = len(FILTERS), 2, 3
+NF, NW, NP = len(FILTERS), 6, 3
 WCOLS = ["w1", "w2"]
+SCORE = "c16_score"          # a value pipeline (2 * age + w2) used as a stratification source
+
+
+def weights_of(rec):
+    """the model's weight columns of a row: w1, w2 (pandas sums), their squares (sum of squares aggregator) and the
+    indicators w > 2 (conditional count aggregator)"""
+    w = [int(rec[c]) for c in WCOLS]
+    return w + [x * x for x in w] + [1 if x > 2 else 0 for x in w]
+
+
+def weight_index(o):
+    return {"sum": 0, "sumdf": 0, "sumsq": 2, "countif": 4}[o["kind"]] + o["wcol"]
+
+
+def score_of(rec):
+    return 2 * int(rec["age"]) + int(rec["w2"])
 PCOLS = ["ident", "age", "w1"]
 COLORS = ["red", "green", "blue", "pink"]
 EPOCH = None
@@ -116,6 +134,10 @@ def f_nanny(d):
     return "lo" if d["age"] < 20 else "hi"
 
 
+def f_score(d):
+    return "low" if d[SCORE] < 30 else ("mid" if d[SCORE] < 60 else "high")
+
+
 def _vector_fns():
     import numpy as np
     import pandas as pd
@@ -139,7 +161,11 @@ def _vector_fns():
         out[a >= 38] = np.nan
         return out
 
-    return {"agegrp": v_agegrp, "warm": v_warm, "parity": v_parity, "nanny": v_nanny}
+    def v_score(df):
+        x = df[SCORE]
+        return pd.Series(np.where(x < 30, "low", np.where(x < 60, "mid", "high")), index=df.index)
+
+    return {"agegrp": v_agegrp, "warm": v_warm, "parity": v_parity, "nanny": v_nanny, "score": v_score}
 
 
 MAPPERS = {
@@ -147,9 +173,11 @@ MAPPERS = {
     "warm": (["sex", "color"], ["F_warm", "F_cold", "M_warm", "M_cold"], f_warm),
     "parity": (["w1"], ["even", "odd"], f_parity),
     "nanny": (["age"], ["lo", "hi"], f_nanny),
+    "score": ([SCORE], ["low", "mid", "high"], f_score),          # sourced from a VALUE pipeline (requires_values)
 }
+VALUE_SOURCED = {"score", "score_bin"}
 DEFAULTS = {"color": COLORS, "sex": ["F", "M"]}
-BINNED = {"age_bin": "age", "w1_bin": "w1"}
+BINNED = {"age_bin": "age", "w1_bin": "w1", "score_bin": SCORE}
 ALL_STRAT_NAMES = sorted(list(MAPPERS) + list(DEFAULTS) + list(BINNED) + ["ghost_strat"])
 NAME_ID = {n: i for i, n in enumerate(ALL_STRAT_NAMES)}         # lexicographic order = id order
 
@@ -200,6 +228,8 @@ def gen_strat(rng, name=None, bad=1.0):
         r = rng.random()
         if col == "age":
             edges = rng.choice([[0, 10, 25, 60], [0, 5, 60], [0, 60], [0, 10, 20, 30, 60], [0, 10, 25, 38], [5, 10, 60]])
+        elif col == SCORE:
+            edges = rng.choice([[0, 30, 60, 200], [0, 200], [0, 21, 200], [0, 40, 80], [10, 50, 200]])
         else:
             edges = rng.choice([[-5, 0, 5, 12], [-5, 12], [-5, 2, 3, 12], [-5, 0, 4], [0, 3, 12]])
         if r < 0.04 * bad:
@@ -266,12 +296,12 @@ def gen_program(rng, single=False):
     defaults = [n for n in dict.fromkeys(names) if rng.random() < 0.3]
     obs = []
     for i in range(rng.randint(1, 5)):
-        kind = rng.choice(["count", "count", "sum", "sumdf", "concat"])
+        kind = rng.choice(["count", "count", "sum", "sumdf", "sumsq", "countif", "concat"])
         o = {"name": f"o{i}" if rng.random() > 0.04 or i == 0 else "o0", "kind": kind,
              "filter": rng.choice([0, 0, 0, 1, 1, 2, 3, 4, 5, 6]) if rng.random() < 0.9 else None,   # None = default
              "when": rng.choice([0, 1, 2, 3, 3, 3]) if rng.random() < 0.9 else None,
              "to_observe": rng.choice([0, 0, 0, 1, 2, 3, 4]),
-             "wcol": rng.randrange(NW),
+             "wcol": rng.randrange(len(WCOLS)),
              "cols": sorted(rng.sample(range(NP), rng.randint(0, NP))),
              "add": [n for n in names if rng.random() < 0.45], "excl": [n for n in names if rng.random() < 0.12]}
         if kind == "concat":
@@ -362,9 +392,14 @@ def make_components(case, log):
         def setup(self, builder):
             self.creator = builder.population.get_simulant_creator()
             self.step = -1
+            builder.value.register_value_producer(SCORE, source=self._score, requires_columns=["age", "w2"])
             for ph_i, ph in enumerate(PHASES):
                 builder.event.register_listener(ph, self._mk(ph_i, "before"), priority=2)
                 builder.event.register_listener(ph, self._mk(ph_i, "after"), priority=8)
+
+        def _score(self, index):
+            pop = self.population_view.get(index)          # this view has `tracked` among its columns: nobody is filtered
+            return (2 * pop["age"] + pop["w2"]).astype("int64")
 
         def on_initialize_simulants(self, pop_data):
             idx = pop_data.index
@@ -439,20 +474,20 @@ def make_components(case, log):
             name, kind = s["name"], s["kind"]
             if kind == "binned":
                 builder.results.register_binned_stratification(BINNED[name], name, list(s["edges"]), list(s["cats"]),
-                                                               excluded_categories=s["excl"], target_type="column")
+                                                               excluded_categories=s["excl"],
+                                                               target_type="value" if name in VALUE_SOURCED else "column")
             elif kind == "default":
                 builder.results.register_stratification(name, list(s["cats"]), excluded_categories=s["excl"],
                                                         requires_columns=[name])
             else:
                 sources, _, frow = MAPPERS[name]
+                src = {"requires_values": list(sources)} if name in VALUE_SOURCED else {"requires_columns": list(sources)}
                 if kind == "vector":
                     builder.results.register_stratification(name, list(s["cats"]), excluded_categories=s["excl"],
-                                                            mapper=vecs[name], is_vectorized=True,
-                                                            requires_columns=list(sources))
+                                                            mapper=vecs[name], is_vectorized=True, **src)
                 else:
                     builder.results.register_stratification(name, list(s["cats"]), excluded_categories=s["excl"],
-                                                            mapper=lambda row, f=frow: f(row), is_vectorized=False,
-                                                            requires_columns=list(sources))
+                                                            mapper=lambda row, f=frow: f(row), is_vectorized=False, **src)
 
         def _register_obs(self, builder, o):
             kw = {}
@@ -474,6 +509,14 @@ def make_components(case, log):
             elif o["kind"] == "sumdf":
                 col = WCOLS[o["wcol"]]
                 kw.update(aggregator_sources=[col], aggregator=pd.DataFrame.sum,
+                          requires_columns=list(dict.fromkeys([col] + fcols)))
+            elif o["kind"] == "sumsq":                       # sum of squares
+                col = WCOLS[o["wcol"]]
+                kw.update(aggregator_sources=[col], aggregator=lambda df, c=col: (df[c] ** 2).sum(),
+                          requires_columns=list(dict.fromkeys([col] + fcols)))
+            elif o["kind"] == "countif":                     # conditional count
+                col = WCOLS[o["wcol"]]
+                kw.update(aggregator_sources=[col], aggregator=lambda df, c=col: int((df[c] > 2).sum()),
                           requires_columns=list(dict.fromkeys([col] + fcols)))
             else:
                 kw.update(requires_columns=list(fcols))
@@ -645,7 +688,7 @@ def run_sim(case, expect_single=False):
             kind = f"(OConcat {clist(nat(c) for c in o['cols'])})"
             d, a, e, it, tup = [], [], [], [], []
         else:
-            kind = "OCount" if o["kind"] == "count" else f"(OSum {nat(o['wcol'])})"
+            kind = "OCount" if o["kind"] == "count" else f"(OSum {nat(weight_index(o))})"
             d, a, e = list(case["defaults"]), list(o["add"]), list(o["excl"])
             it = list(set(d + [] + a) - set(e))                      # the expression of manager.py 382-389
             spec = tuple(sorted(set(d + a) - set(e)))
@@ -692,6 +735,9 @@ def run_sim(case, expect_single=False):
     tags = [f"strats{len(regs)}", f"obs{len(accepted_obs)}", f"n0_{min(case['n0'], 9)}"]
     for g in regs:
         tags.append("kind_" + g["kind"])
+        if g["name"] in VALUE_SOURCED:
+            tags.append("value_sourced")
+    tags += sorted({"agg_" + o["kind"] for o in accepted_obs})
     if post_code == 1:
         coq = "(" + cpair(cfg_coq, qs_coq, clist(oreqs), cpair(nat(NF), nat(NW), nat(NP)), z(1), "[]", "[]",
                           cpair(z(0), z(0)), "[]") + " : sim_case)"
@@ -740,6 +786,8 @@ def run_sim(case, expect_single=False):
     for ei, ev in enumerate(log["events"]):
         snap = ev["snap"]
         recs = snap.to_dict("records")
+        for rec in recs:
+            rec[SCORE] = score_of(rec)                  # the pipeline's value, recomputed from the snapshot
         labels = [int(i) for i in snap.index]
         for rec, lab in zip(recs, labels):
             if int(rec["ident"]) != lab:
@@ -824,7 +872,7 @@ def run_sim(case, expect_single=False):
                     key = tuple(cats[n][j] for n in expected_tuple[o["name"]])
                     if any(c is None for c in key):
                         continue                               # excluded category: not counted anywhere
-                    w = 1 if o["kind"] == "count" else int(rec[WCOLS[o["wcol"]]])
+                    w = 1 if o["kind"] == "count" else weights_of(rec)[weight_index(o)]
                     eligible_total += w
                     k = tuple(intern(c) for c in key)
                     if k not in expect[o["name"]]:
@@ -859,7 +907,7 @@ def run_sim(case, expect_single=False):
                     v = None if v is None else intern(v)
                 raw_items.append(cpair(z(NAME_ID[g["name"]]), oz(v)))
             rows_coq.append(f"{{| r_label := {z(lab)}; r_raw := {clist(raw_items)}; r_pass := {clist(cbool(p[j]) for p in passes)}; "
-                            f"r_w := {zl(int(rec[c]) for c in WCOLS)}; r_pay := {zl(int(rec[c]) for c in PCOLS)} |}}")
+                            f"r_w := {zl(weights_of(rec))}; r_pay := {zl(int(rec[c]) for c in PCOLS)} |}}")
         ev_coq.append(f"{{| e_phase := {z(ev['phase'])}; e_time := {z(secs(ev['time']))}; e_rows := {clist(rows_coq)}; "
                       f"e_obs := {zl(observed_names)} |}}")
         if raised_here:
